@@ -111,6 +111,7 @@ func ZZ_C04_sparse_add_M0() { zzC04SparseAdd(0) }
 func ZZ_C04_sparse_add_M1() { zzC04SparseAdd(1) }
 func ZZ_C04_sparse_add_M2() { zzC04SparseAdd(2) }
 func ZZ_C04_sparse_add_M3() { zzC04SparseAdd(3) }
+func ZZ_C04_sparse_add_M4_T() { zzC04SparseAdd(4) }
 
 func zzC04SparseObservers(M int) {
 	s, g := zzSparseState("s", M)
@@ -224,3 +225,4 @@ func ZZ_C04_sparse_observers_M0() { zzC04SparseObservers(0) }
 func ZZ_C04_sparse_observers_M1() { zzC04SparseObservers(1) }
 func ZZ_C04_sparse_observers_M2() { zzC04SparseObservers(2) }
 func ZZ_C04_sparse_observers_M3() { zzC04SparseObservers(3) }
+func ZZ_C04_sparse_observers_M4_T() { zzC04SparseObservers(4) }
